@@ -569,6 +569,8 @@ fn gen_step(ty: &Ty, dec: &Decoded, bytes: &[u8], t: &mut Tape, cfg: &HistCfg, s
                 }
                 6 | 7 => {
                     let k = t.below(xs.len() + 3);
+                    // "keep everything" at the far end of the argument range
+                    let k = if k == xs.len() + 2 && path.len() % 2 == 0 { usize::MAX - (xs.len() % 2) } else { k };
                     let mut nv2 = xs.clone();
                     nv2.truncate(k);
                     Some(Step {
